@@ -71,7 +71,7 @@ fn dstep(s: &mut Sess, t: &mut Tracer) -> bool {
 		}
 		Some(site) => {
 			// ms: wall-clock time the thread took from being let go to its next yield point (its sleep while the ring is full)
-			t.ev(json!({"a": "dec", "site": site_name(site), "prod": DEC_PUSHED.load(Ordering::SeqCst), "ms": t0.elapsed().as_millis() as u64}));
+			t.ev(json!({"a": "dec", "site": site_name(site), "prod": DEC_PUSHED.load(Ordering::SeqCst), "ms": t0.elapsed().as_millis() as u64, "us": t0.elapsed().as_micros() as u64}));
 			true
 		}
 		None => {
